@@ -62,16 +62,35 @@ pub fn check(c: &Case, st: &mut Stats) -> CheckResult {
     };
     let generated = matches!(c.sk, SkSpec::Generated(_));
     let tag = format!("set{}:{}", p.id, mode.tag());
-    // 1. external interface with the caller's RNG
-    let mut rng = TestRng::replay(&rnd);
-    let sig = match g_sign(&*sk, &mut rng, &m, &ctx, mode) {
-        Ok(Ok(s)) => s,
-        Ok(Err(e)) => fail!(format!("sign_err:{tag}"), "{tag}: signing failed: {e}"),
-        Err(pi) => return Err(Fail::panic("sign", &pi)),
+    // 1. external interface with the caller's RNG. When the reference needed many iterations the call runs in a
+    // sacrificial thread with a time limit: a signer that cycles forever must not block the other cases.
+    let (sig, delivered) = if diag.iterations >= 12 {
+        let (sk_t, m_t, ctx_t) = (g("sk.clone", || sk.clone_box())?, m.clone(), ctx.clone());
+        let r = crate::engine::with_time_limit(30, move || {
+            let mut rng = TestRng::replay(&rnd);
+            let r = g_sign(&*sk_t, &mut rng, &m_t, &ctx_t, mode);
+            (r, rng.delivered)
+        });
+        match r {
+            None => {
+                st.class("abandoned:library_sign_did_not_return_in_30s");
+                return Ok(());
+            }
+            Some((Ok(Ok(s)), d)) => (s, d),
+            Some((Ok(Err(e)), _)) => fail!(format!("sign_err:{tag}"), "{tag}: signing failed: {e}"),
+            Some((Err(pi), _)) => return Err(Fail::panic("sign", &pi)),
+        }
+    } else {
+        let mut rng = TestRng::replay(&rnd);
+        match g_sign(&*sk, &mut rng, &m, &ctx, mode) {
+            Ok(Ok(s)) => (s, rng.delivered),
+            Ok(Err(e)) => fail!(format!("sign_err:{tag}"), "{tag}: signing failed: {e}"),
+            Err(pi) => return Err(Fail::panic("sign", &pi)),
+        }
     };
     st.eval();
-    if rng.delivered != 32 {
-        fail!(format!("sign_drew:{tag}"), "{tag}: signing drew {} bytes from the RNG instead of 32", rng.delivered);
+    if delivered != 32 {
+        fail!(format!("sign_drew:{tag}"), "{tag}: signing drew {delivered} bytes from the RNG instead of 32");
     }
     if sig != rsig {
         fail!(format!("sig_mismatch:{tag}"), "{tag}: signature differs from FIPS 204 Sign with the same rnd ({}; reference used {} iterations)", diff(&sig, &rsig), diag.iterations);
@@ -113,8 +132,23 @@ pub fn check(c: &Case, st: &mut Stats) -> CheckResult {
     }
     // 4. internal interface (Algorithm 7 on M' = message)
     if mode == Mode::Pure {
-        if let Ok((rint, _)) = rf::sign_internal(&p, &built.sk, &m, &rnd, ITER_CAP) {
-            let sint = match g("_internal_sign", || sk.internal_sign(&m, &[], rnd))? {
+        if let Ok((rint, dint)) = rf::sign_internal(&p, &built.sk, &m, &rnd, ITER_CAP) {
+            let call = {
+                let (sk_t, m_t) = (g("sk.clone", || sk.clone_box())?, m.clone());
+                move || crate::engine::guarded(|| sk_t.internal_sign(&m_t, &[], rnd))
+            };
+            let res = if dint.iterations >= 12 {
+                match crate::engine::with_time_limit(30, call) {
+                    Some(r) => r,
+                    None => {
+                        st.class("abandoned:library_internal_sign_did_not_return_in_30s");
+                        return Ok(());
+                    }
+                }
+            } else {
+                call()
+            };
+            let sint = match res.map_err(|pi| Fail::panic("_internal_sign", &pi))? {
                 Ok(s) => s,
                 Err(e) => fail!(format!("internal_sign_err:set{}", p.id), "set {}: _internal_sign failed: {e}", p.id),
             };
